@@ -101,7 +101,7 @@ def classify_fault(tok, line, thrower_of_crash=None):
         if kv.get("k") == "-1":
             out.append(Finding("%s:%s" % (kind, name), ["crash_without_fault", sig], "crashes without any fault injected (%s in %s)" % (sig, stage), line))
         else:
-            out.append(Finding(fn, ["%s_fault" % kind, "crash_" + stage, sig, "domain_" + dom, "crash_%s_%s" % (stage, sig)],
+            out.append(Finding(fn, ["crash_%s_%s" % (stage, sig), "%s_fault" % kind, "crash_" + stage, sig, "domain_" + dom],
                                "%s at %s after a fault inside %s" % (sig, stage, fn), line))
         return out
     thrower = kv.get("thrower", "")
@@ -131,43 +131,8 @@ def classify_fault(tok, line, thrower_of_crash=None):
     return out
 
 
-# ---------------------------------------------------------------------------------------------
-def run(ctx):
-    ctx.ensure_ppl()
-    broken = ctx.prove(["PPLV.Props.C14"])
-    quick = ctx.tier == "quick"
-    hdir = os.path.join(VERIF, "harness")
-    parts_hash = file_hash(*[os.path.join(hdir, p) for p in PARTS])
-    h = ctx.compile_harness("c14_faults.cc", flags=("-rdynamic", "-DC14_PARTS_HASH=0x" + parts_hash[:8]))
-    wd = ctx.workdir()
-    viol = {}                       # (site, tags-tuple) -> count, first record
-    stats = collections.Counter()
-    samples = []
-
-    def report(f, kind, replay_extra):
-        key = (f.site, f.tags[0])
-        stats["findings_" + kind] += 1
-        if key in viol:
-            viol[key][0] += 1
-            return
-        viol[key] = [1, f, replay_extra]
-
-    # ---- (a) rejected calls ------------------------------------------------------------------
-    rpath = os.path.join(wd, "reject.txt")
-    rc, _, err = ctx.run([h, "--mode", "reject", "--seed", str(ctx.seed)], stdout_path=rpath, timeout=900)
-    if rc != 0:
-        ctx.fatal("harness (reject) failed rc=%s %s" % (rc, (err or "")[-400:]))
-    rlines = open(rpath).read().splitlines()
-    # Lean precondition table: expected class of every polyhedron call
-    vpath = os.path.join(wd, "reject.verdicts")
-    r = sh(["lake", "env", "lean", "--run", "Driver/C14.lean"], cwd=LEAN, stdin=open(rpath), stderr=-1)
-    if r.returncode != 0:
-        ctx.fatal("Driver/C14.lean failed: " + (r.stdout or "")[-600:] + (r.stderr or "")[-600:])
-    verd = {}
-    for l in r.stdout.splitlines():
-        t = l.split(None, 2)
-        if t and t[0] in ("ok", "MISMATCH"):
-            verd[int(t[1])] = (t[0], t[2] if len(t) > 2 else "")
+def analyse_reject(rlines, verd, report, stats, samples):
+    """rejected-call journal + verdicts of the Lean table -> findings through report(); returns (calls, thrown, histogram)"""
     rej_n = rej_thrown = 0
     rej_hist = collections.Counter()
     for i, l in enumerate(rlines, 1):
@@ -222,6 +187,47 @@ def run(ctx):
                 report(Finding(site, ["rejected_call_bad_free"], "bad free in a rejected call: " + l[:200], l), "reject", rec)
         if len(samples) < 3 and got != "none" and rej_n % 97 == 1:
             samples.append(l[:260])
+    return rej_n, rej_thrown, rej_hist
+
+
+# ---------------------------------------------------------------------------------------------
+def run(ctx):
+    ctx.ensure_ppl()
+    broken = ctx.prove(["PPLV.Props.C14"])
+    quick = ctx.tier == "quick"
+    hdir = os.path.join(VERIF, "harness")
+    parts_hash = file_hash(*[os.path.join(hdir, p) for p in PARTS])
+    h = ctx.compile_harness("c14_faults.cc", flags=("-rdynamic", "-DC14_PARTS_HASH=0x" + parts_hash[:8]))
+    wd = ctx.workdir()
+    viol = {}                       # (site, tags-tuple) -> count, first record
+    stats = collections.Counter()
+    samples = []
+
+    def report(f, kind, replay_extra):
+        key = (f.site, f.tags[0])
+        stats["findings_" + kind] += 1
+        if key in viol:
+            viol[key][0] += 1
+            return
+        viol[key] = [1, f, replay_extra]
+
+    # ---- (a) rejected calls ------------------------------------------------------------------
+    rpath = os.path.join(wd, "reject.txt")
+    rc, _, err = ctx.run([h, "--mode", "reject", "--seed", str(ctx.seed)], stdout_path=rpath, timeout=900)
+    if rc != 0:
+        ctx.fatal("harness (reject) failed rc=%s %s" % (rc, (err or "")[-400:]))
+    rlines = open(rpath).read().splitlines()
+    # Lean precondition table: expected class of every polyhedron call
+    vpath = os.path.join(wd, "reject.verdicts")
+    r = sh(["lake", "env", "lean", "--run", "Driver/C14.lean"], cwd=LEAN, stdin=open(rpath), stderr=-1)
+    if r.returncode != 0:
+        ctx.fatal("Driver/C14.lean failed: " + (r.stdout or "")[-600:] + (r.stderr or "")[-600:])
+    verd = {}
+    for l in r.stdout.splitlines():
+        t = l.split(None, 2)
+        if t and t[0] in ("ok", "MISMATCH"):
+            verd[int(t[1])] = (t[0], t[2] if len(t) > 2 else "")
+    rej_n, rej_thrown, rej_hist = analyse_reject(rlines, verd, report, stats, samples)
 
     # ---- (b), (c): fault / abandonment enumeration -----------------------------------------------
     nproc = 10
